@@ -1011,6 +1011,47 @@ impl<'a> Ctx<'a> {
                 }
             }
         }
+        // shape C: k >= 1 leading `let (i, PAT) = EXPR(i)?;` and then anything else (loops, matches, a hand-built value):
+        // the parsers run in sequence; the rest is one action the translator cannot read (reported as hand-modelled, so
+        // the obligations about values break, but the syntax of the rule is there for the sentence generator and the
+        // generic theorems)
+        let mut gs: Vec<String> = vec![];
+        let mut pats: Vec<Pat> = vec![];
+        let mut k = 0;
+        while k < stmts.len() {
+            let mut got = None;
+            if let Stmt::Local(l) = &stmts[k] {
+                if let (Pat::Tuple(pt), Some(init)) = (&l.pat, &l.init) {
+                    if pt.elems.len() == 2 && init.diverge.is_none() && tokens_of(&pt.elems[0]) == "i" {
+                        if let Expr::Try(t) = &*init.expr {
+                            if let Some(inner) = self.applied_to_input(&t.expr) {
+                                got = Some((inner.clone(), pt.elems[1].clone()));
+                            }
+                        }
+                    }
+                }
+            }
+            match got {
+                Some((inner, pat)) => {
+                    gs.push(self.tr_g(&inner));
+                    pats.push(pat);
+                    k += 1;
+                }
+                None => break,
+            }
+        }
+        if k >= 1 && k < stmts.len() {
+            let rest = &stmts[k..];
+            let clos: Expr = if k == 1 {
+                let p0 = &pats[0];
+                syn::parse_quote!(|#p0| { #(#rest)* })
+            } else {
+                syn::parse_quote!(|(#(#pats),*)| { #(#rest)* })
+            };
+            let a = self.tr_action(&clos);
+            let g = if k == 1 { gs[0].clone() } else { format!("(Seq [{}])", gs.join("; ")) };
+            return format!("(MapRes {} {})", a, g);
+        }
         self.unsupported("function body shape")
     }
 }
